@@ -53,6 +53,13 @@ func (timeoutErr) Error() string   { return "scripted transport: i/o timeout" }
 func (timeoutErr) Timeout() bool   { return true }
 func (timeoutErr) Temporary() bool { return true }
 
+// tempErr: a net.Error that reports Temporary() but not Timeout() (EINTR-like).
+type tempErr struct{}
+
+func (tempErr) Error() string   { return "scripted transport: resource temporarily unavailable" }
+func (tempErr) Timeout() bool   { return false }
+func (tempErr) Temporary() bool { return true }
+
 var (
 	errScriptedReset    = errors.New("scripted transport: connection reset by peer")
 	errScriptedClosed   = errors.New("scripted transport: use of closed connection")
